@@ -1212,6 +1212,9 @@ func (r *gRun) plainlyResolvable() bool {
 			}
 			optional := strings.HasSuffix(tag, ",required=false")
 			target := strings.TrimSuffix(tag[1:], ",required=false")
+			if slot == "RR0" && !optional {
+				return false // an array-typed point is never filled: a required one fails the start, legitimately
+			}
 			if slot != "A0" && slot != "A1" && slot != "A2" {
 				// a typed point wired BY TYPE: resolvable when it is optional or some OTHER component is compatible
 				if target != "" {
